@@ -690,13 +690,13 @@ fn main() {
         run_case(c, &mut rep);
     }
     let mut rng = Rng::new(args.seed);
-    let count = if args.tier == "thorough" { 60_000 } else { 700 };
+    let count = if args.tier == "thorough" { 60_000 } else { 2_000 };
     for _ in 0..count {
         let c = gen_case(&mut rng);
         run_case(&c, &mut rep);
     }
     // the environment semantics the theorems rest on: simulator vs EcModel.Net
-    for _ in 0..(if args.tier == "thorough" { 40_000 } else { 2_000 }) {
+    for _ in 0..(if args.tier == "thorough" { 40_000 } else { 6_000 }) {
         run_net_case(&mut rng, &mut rep);
     }
     rep.notes.push(format!("corpus cases: {}", corpus.len()));
